@@ -8,7 +8,7 @@ IF T% MOD 2 = 0 THEN
   CASE IS > 5
     T% = T% + 1
     PRINT "2b"; T%
-  CASE 2, 3
+  CASE 2, 3 TO 3, 4
     T% = T% + 1
     PRINT "2c"; T%
   CASE ELSE
